@@ -75,7 +75,7 @@ def interesting(inp, min_cmds=2):
 
 
 def replay_all(prog, groups, bindir, root, nworkers=8, log_mode=None, keep_failed=True, cmd_timeout=60, cats=None,
-               pad=0, watch=False, jitter=False, repeat=1):
+               pad=0, watch=False, jitter=False, repeat=1, sched=0, trace_dir=None):
     """Replay history groups (list of lists of alternatives) in parallel.
     Returns (n_ok, failures) with failures = list of (alts, report, dir)."""
     os.makedirs(root, exist_ok=True)
@@ -85,9 +85,17 @@ def replay_all(prog, groups, bindir, root, nworkers=8, log_mode=None, keep_faile
     def one(ig):
         i, alts = ig
         d = os.path.join(root, 'h%05d' % i)
+        # with sched = n, n of every n+1 runs are executed under controlled scheduling (harness.Serializer), seed = run number
+        ss = i if (sched and i % (sched + 1) != 0) else None
+        # the hook events of the runs under controlled scheduling are kept for trace validation (every second one)
+        tr = os.path.join(trace_dir, 'h%05d.ndjson' % i) if (trace_dir and ss is not None and i % 2 == 1) else None
+        if tr:
+            os.makedirs(trace_dir, exist_ok=True)
+            if os.path.exists(tr):
+                os.unlink(tr)
         try:
-            ok, rep = harness.replay_group(prog, alts, d, bindir, log_mode=log_mode, cmd_timeout=cmd_timeout, cats=cats,
-                                           pad=pad, watch=watch, jitter=jitter, kill_seed=i)
+            ok, rep = harness.replay_group(prog, alts, d, bindir, trace=tr, log_mode=log_mode, cmd_timeout=cmd_timeout, cats=cats,
+                                           pad=pad, watch=watch, jitter=jitter and ss is None, kill_seed=i, sched_seed=ss)
         except Exception as ex:      # harness trouble is reported as a failure of that history
             import traceback
             ok, rep = False, [{'diffs': ['harness exception: %r %s' % (ex, traceback.format_exc()[-600:])]}]
